@@ -10,7 +10,23 @@ Two versions of the code are modelled, selected by `Cfg`:
 * `Cfg.orig`   — the code as found: `make([]byte, n)` for a 3-byte length prefix before the data is read,
                  `reflect.MakeSlice(t, 0, ln)` with the 32-bit wire count, `val.Elem().Type()` on a nil pointer field;
 * `Cfg.fixed`  — the repaired code (the `fix:` commits): chunked `readN`, capacity `min(ln, maxPrealloc)`, nil pointer
-                 fields are allocated. The driver runs `Cfg.fixed`; it must agree with the current source. -/
+                 fields are allocated. The driver runs `Cfg.fixed`; it must agree with the current source.
+
+Partial operations of the Go code and where they are in the model (`tl_decode_total` has to prove the live ones safe):
+* `binary.LittleEndian.Uint32(b)` / `Uint64(b)` (index `b[3]` / `b[7]`)  — `u32le` / `u64le`, panic on a short slice; the
+  proof needs that `io.ReadFull` fills the buffer or fails (`readFull_ok_len`);
+* `chunk[:k]` in `readN`                                                  — `sliceTo maxPrealloc k`, panic for `k < 0` or
+  `k > 4096`; the proof needs the loop condition `len(data) < n` and the `min`;
+* `val.Elem().Type()` on a nil pointer field                              — `crash` under `Cfg.nilPtrPanics` (code as found);
+* `sizeBuf[:3]`, `b[0]` of a `[1]byte`, `b[:]` of a `[4]byte`, `t[3]..t[0]` after `len(t) != 4` — constant bounds, total;
+* `make([]byte, n)`: `n` is a byte or at most `maxPrealloc` (64-bit `int`: `int(uint32)` is not negative) — total, COUNTED;
+* `reflect.New(..).Interface().(UnmarshalerTL)`                           — comma-ok assertion, total;
+* reflect panics that depend on the Go TYPE only and not on the input (`FieldByName("SumType").SetString` on a field
+  that is not a string, `Set` on an unexported field is guarded by `CanSet`) are NOT in the model: `Ty` is the shape the
+  decoder sees, not the Go type. Every alternative of every shipped sum type is decoded at least once on the Go side
+  from an accepted encoding (the `valid` lines of `tld.dec`; conditional fields with random mode bits), which is the test
+  for an input-independent panic.
+* `decodeLength` / `processQueryAnswer` (liteclient/client.go): slice expressions with explicit bounds panics (below). -/
 namespace Tongo.TlD
 
 structure Cfg where
@@ -383,6 +399,33 @@ def parseTy (s : String) : Option Ty :=
   match pTy s.toList with
   | some (t, []) => some t
   | _ => none
+
+/-! the printer of the text form (inverse of `parseTy`): the generated descriptor terms (`TongoGen.TldTypes`) are tied to
+the text the harness sends by `desc_X.show = "<text>"`, and `tld.consts` answers `show (parseTy text)` -/
+mutual
+def Ty.show : Ty → String
+  | .int4 => "i"
+  | .int8 => "l"
+  | .bool => "b"
+  | .bytes => "B"
+  | .int256 => "H"
+  | .bad => "X"
+  | .arr n => "A" ++ toString n
+  | .vec sz e => "V" ++ toString sz ++ "(" ++ e.show ++ ")"
+  | .ptr e => "P(" ++ e.show ++ ")"
+  | .struct fs => "T(" ++ fs.show ++ ")"
+  | .sum as => "U(" ++ as.show ++ ")"
+def Fields.show : Fields → String
+  | .nil => ""
+  | .cons cond isMode t rest =>
+    (if isMode then "m" else "") ++ (match cond with | some k => "?" ++ toString k ++ ":" | none => "") ++ t.show ++
+      (match rest with | .nil => "" | _ => "," ++ rest.show)
+def Alts.show : Alts → String
+  | .nil => ""
+  | .cons tag t rest =>
+    (match tag with | some n => toString n | none => "!") ++ "=" ++ t.show ++
+      (match rest with | .nil => "" | _ => "," ++ rest.show)
+end
 
 /-! ### the helpers that sit directly on network data (liteclient/client.go, liteclient/decoder.go) -/
 
